@@ -483,33 +483,46 @@ func cliFormat(f string) string {
 // the sequential result. Under the plain build it is a stress pass; the same
 // function runs in the -race build (vmc racepass).
 func c09FreeRun(c *core.Ctx, ins []c09Input, rounds int) {
-	want := make([]string, len(ins))
-	for i, in := range ins {
-		want[i] = in.eval()
+	// The concurrent rounds come FIRST: in the fresh process of the race pass nothing has been
+	// evaluated yet, so lazily filled package-level state (caches, memo tables) is written while other
+	// goroutines read it - a sequential warm-up would hide exactly that. The reference results are
+	// computed afterwards, one at a time.
+	type obs struct {
+		i   int
+		got string
 	}
 	var mu sync.Mutex
-	bad := 0
+	var all []obs
 	for r := 0; r < rounds; r++ {
 		var wg sync.WaitGroup
 		for g := 0; g < 16; g++ {
 			wg.Add(1)
 			go func(g int) {
 				defer wg.Done()
+				local := make([]obs, 0, len(ins))
 				for k := range ins {
 					i := (k*7 + g*13) % len(ins)
-					got := ins[i].eval()
-					if got != want[i] {
-						mu.Lock()
-						bad++
-						if c != nil && bad <= 3 {
-							c.Fail("free-running", "concurrent-result-differs", ins[i].Kind, map[string]any{"alone": clip(want[i]), "concurrent": clip(got)})
-						}
-						mu.Unlock()
-					}
+					local = append(local, obs{i, ins[i].eval()})
 				}
+				mu.Lock()
+				all = append(all, local...)
+				mu.Unlock()
 			}(g)
 		}
 		wg.Wait()
+	}
+	want := make([]string, len(ins))
+	for i, in := range ins {
+		want[i] = in.eval()
+	}
+	bad := 0
+	for _, o := range all {
+		if o.got != want[o.i] {
+			bad++
+			if c != nil && bad <= 3 {
+				c.Fail("free-running", "concurrent-result-differs", ins[o.i].Kind, map[string]any{"alone": clip(want[o.i]), "concurrent": clip(o.got)})
+			}
+		}
 	}
 	if c != nil {
 		c.Extra("free_running_evaluations", int64(rounds*16*len(ins)))
